@@ -52,8 +52,8 @@ deriving instance DecidableEq for Except
 
 /-! ### integers -/
 
-/-- bits of `a` that are not bits of `b` -/
-def ldiff (a b : Nat) : Nat := Nat.bitwise (fun x y => x && !y) a b
+/-- bits of `a` that are not bits of `b` (`a & ~b` for naturals) -/
+def ldiff (a b : Nat) : Nat := a ^^^ (a &&& b)
 
 /-- `a & b` -/
 def band : Int → Int → Int
